@@ -4,7 +4,7 @@
 From Coq Require Import List Bool ZArith.
 From Coercion.Base Require Import Plan.
 From Coercion.Store Require Import Tree Rows Spec SqliteModel SqliteRep SqliteRepDec SqliteProofs SqliteRefine SqliteTheorems
-     CosmosModel CosmosRep CosmosTheorems StoreCheck.
+     CosmosModel CosmosRep CosmosTheorems SqliteStatic StoreCheck.
 Import ListNotations.
 
 (* the perfect codec of the correspondence check satisfies the round-trip premises *)
@@ -170,3 +170,24 @@ Example ex_cosmos_gap :
   let '(c, ok) := CosmosModel.create_stage enc_req0 dec_req0 enc_att0 dec_att0 1 p1 cempty in
   ok = false /\ option_map sp_id (CosmosModel.read dec_req0 dec_att0 (u 11) c) = Some (u 11) /\ snd c = [].
 Proof. vm_compute. repeat split; reflexivity. Qed.
+
+(* ---- the list-only form of the sqlite domain (c13_roundtrip_sqlite_distinct_ids) is inhabited ---- *)
+Lemma disjoint_by_computation p q :
+  forallb (fun i => negb (memb i (pln_ids p))) (pln_ids q) = true -> ids_disjoint q p.
+Proof.
+  intros H i Hi Hin. rewrite forallb_forall in H. specialize (H i Hi). apply memb_In in Hin. now rewrite Hin in H.
+Qed.
+
+Example ex_static :
+  ops_static req_ok0 att_ok0 [OCreate p1; OCreate p2; OUpdateAction (u 11) (u 17) st1 [att1]; OCreate p1; ODelete (u 11); OCreate p1].
+Proof.
+  split.
+  - repeat constructor; try (apply (pln_domb_sound req_ok0 att_ok0); vm_compute; reflexivity);
+      try (apply nodupb_sound; vm_compute; reflexivity); try (vm_compute; intuition discriminate).
+  - cbn [created flat_map app].
+    repeat match goal with
+           | |- ForallOrdPairs _ _ => constructor
+           | |- Forall _ _ => constructor
+           end;
+      first [left; reflexivity | right; apply disjoint_by_computation; vm_compute; reflexivity].
+Qed.
